@@ -46,14 +46,14 @@ Print Assumptions C01_equal_fold_is_std.
    both kernel configurations, every cutover function and every value of the thresholds
    maxBruteForce / maxLen / primeRK, on every pair of byte strings, never panicking and
    never running out of fuel *)
-Theorem C01_index_refines : forall p native cutover maxBruteForce maxLen primeRK s sub, wf s -> wf sub ->
-  Impl6.Index native cutover fold121 (lower_pkg p) fold_map121 fold_map_excl121 upper_lower121 maxBruteForce maxLen primeRK p s sub =
+Theorem C01_index_refines : forall p native cutover maxBruteForce maxLen primeRK nativeMax rtMaxLen, nativeMax <= rtMaxLen -> forall s sub, wf s -> wf sub ->
+  Impl6.Index native cutover fold121 (lower_pkg p) fold_map121 fold_map_excl121 upper_lower121 maxBruteForce maxLen primeRK nativeMax rtMaxLen p s sub =
   Ok (index fold121 s sub).
 Proof. exact index_refines121. Qed.
 Print Assumptions C01_index_refines.
 
-Theorem C01_contains_refines : forall p native cutover maxBruteForce maxLen primeRK s sub, wf s -> wf sub ->
-  Impl6.Contains native cutover fold121 (lower_pkg p) fold_map121 fold_map_excl121 upper_lower121 maxBruteForce maxLen primeRK p s sub =
+Theorem C01_contains_refines : forall p native cutover maxBruteForce maxLen primeRK nativeMax rtMaxLen, nativeMax <= rtMaxLen -> forall s sub, wf s -> wf sub ->
+  Impl6.Contains native cutover fold121 (lower_pkg p) fold_map121 fold_map_excl121 upper_lower121 maxBruteForce maxLen primeRK nativeMax rtMaxLen p s sub =
   Ok (contains fold121 s sub).
 Proof. exact contains_refines121. Qed.
 Print Assumptions C01_contains_refines.
